@@ -365,19 +365,26 @@ open Canvas.C01Split Canvas.Wn
 /-- `addIntersections` raises its flag (on which `bentleyOttmann` re-sorts the events of the square)
 exactly when `splitAtIntersections` pushed new events onto the queue: whenever EITHER segment was
 split -/
-theorem resort_flag_iff_events_pushed (zs : List IPt) (a0 a1 b0 b1 : IPt) :
-    addRet zs a0 a1 b0 b1 = true ↔ 0 < pushed zs a0 a1 b0 b1 :=
-  addRet_iff_pushed zs a0 a1 b0 b1
+theorem resort_flag_iff_events_pushed (aIn bIn : Bool) (zs : List IPt) (a0 a1 b0 b1 : IPt) :
+    addRet aIn bIn zs a0 a1 b0 b1 = true ↔ 0 < pushed aIn bIn zs a0 a1 b0 b1 :=
+  addRet_iff_pushed aIn bIn zs a0 a1 b0 b1
 
 /-- a one-sided split (T-junction, or the second of two coincident segments cut by a third) is
 reported -/
-theorem resort_flag_of_one_sided_split (zs : List IPt) (a0 a1 b0 b1 : IPt)
-    (h : 0 < splits zs.reverse a0 a1 ∨ 0 < splits zs.reverse b0 b1) : addRet zs a0 a1 b0 b1 = true :=
-  addRet_of_one_sided zs a0 a1 b0 b1 h
+theorem resort_flag_of_one_sided_split (aIn bIn : Bool) (zs : List IPt) (a0 a1 b0 b1 : IPt)
+    (h : 0 < splits aIn (keepZ aIn bIn a0 b0 zs).reverse a0 a1 ∨ 0 < splits bIn (keepZ aIn bIn a0 b0 zs).reverse b0 b1) :
+    addRet aIn bIn zs a0 a1 b0 b1 = true :=
+  addRet_of_one_sided aIn bIn zs a0 a1 b0 b1 h
 
 /-- events come in pairs (the two end points created by a split) -/
-theorem pushed_events_even (zs : List IPt) (a0 a1 b0 b1 : IPt) : pushed zs a0 a1 b0 b1 % 2 = 0 :=
-  pushed_even zs a0 a1 b0 b1
+theorem pushed_events_even (aIn bIn : Bool) (zs : List IPt) (a0 a1 b0 b1 : IPt) :
+    pushed aIn bIn zs a0 a1 b0 b1 % 2 = 0 :=
+  pushed_even aIn bIn zs a0 a1 b0 b1
+
+/-- a segment that is in the sweep status is never split directly below its left end point -/
+theorem status_segment_not_split_below_left_end (zs : List IPt) (s0 s1 : IPt)
+    (h : ∀ z ∈ zs, z.x = s0.x ∧ z.y < s0.y) : splits true zs s0 s1 = 0 :=
+  no_split_below_left_end zs s0 s1 h
 
 end Split
 
